@@ -133,9 +133,15 @@ def run(chk, F, tier):
             subs.append((a[0], a[1], v))
             return [(st, v)]
 
-        eng.hooks_by_id = {esub["id"]: h_sub}
-        finals, args = D.run(fn, interior=True)
-        eng.hooks_by_id = {}
+        # (scale conversions are kept uninterpreted here: a constructor has no business converting, and one that does is judged by
+        # the operand-flow obligations below, not by exploring every arm of to_time_scale)
+        A.install(duration_algebra=True, opaque_conv=True)
+        eng.hooks_by_id[esub["id"]] = h_sub
+        try:
+            finals, args = D.run(fn, interior=True)
+        finally:
+            A.uninstall()
+            eng.hooks_by_id = {}
         for st in finals:
             if st.end != "return":
                 continue
